@@ -17,6 +17,7 @@ import (
 	"regexp"
 	"sort"
 	"strings"
+	"sync"
 	"testing"
 	"time"
 
@@ -371,9 +372,12 @@ func TestVerifC12Timeout(t *testing.T) {
 		var seenHdr []string
 		var ctxTimeout time.Duration
 		var ctxHas bool
+		var echoed *int64
 		h := referenceServerChecks(http.HandlerFunc(func(_ http.ResponseWriter, r *http.Request) {
 			seenHdr = r.Header.Values(hdr)
 			ctxTimeout, ctxHas = timeoutFromContext(r.Context())
+			// what the RPC handlers put into the response's RequestInfo
+			echoed = createRequestInfo(r.Context(), r.Header, nil, nil).TimeoutMs
 		}), p)
 		w := map[string]any{"protocol": protocol, "header": hdr, "value": s}
 		rep.InFlight(w)
@@ -405,11 +409,12 @@ func TestVerifC12Timeout(t *testing.T) {
 			if ctxTimeout != want {
 				rep.Violation("timeout/wrong-duration/"+cls, fmt.Sprintf("%s %q converted to %d ns, exact value is %d ns", hdr, s, int64(ctxTimeout), int64(want)), w)
 			}
-			// what the handler echoes is timeout.Milliseconds()
-			if ctxTimeout.Milliseconds() != want.Milliseconds() {
-				rep.Violation("timeout/wrong-echo/"+cls, fmt.Sprintf("echoed timeout_ms %d want %d", ctxTimeout.Milliseconds(), want.Milliseconds()), w)
+			if echoed == nil {
+				rep.Violation("timeout/not-echoed/"+cls, fmt.Sprintf("%s %q was accepted but RequestInfo carries no timeout_ms (want %d)", hdr, s, want.Milliseconds()), w)
+			} else if *echoed != want.Milliseconds() {
+				rep.Violation("timeout/wrong-echo/"+cls, fmt.Sprintf("echoed timeout_ms %d want %d", *echoed, want.Milliseconds()), w)
 			}
-		case !ok && ctxHas:
+		case !ok && (ctxHas || echoed != nil):
 			rep.Count("ungrammatical", 1)
 			rep.Violation("timeout/accepted-invalid/"+cls, fmt.Sprintf("ungrammatical %s value %q accepted as %v", hdr, s, ctxTimeout), w)
 		default:
@@ -596,4 +601,99 @@ func TestVerifC12Wire(t *testing.T) {
 	rep.Sample(map[string]any{"transport": "h2-tls", "expected": "client cert", "want_feedback": []string{"cert"}})
 	rep.RequireMin("wire_conforming", 5)
 	rep.RequireMin("wire_deviating", 40)
+}
+
+type vfLockedPrinter struct {
+	mu    sync.Mutex
+	lines []string
+}
+
+func (l *vfLockedPrinter) Printf(msg string, args ...any) {
+	l.mu.Lock()
+	l.lines = append(l.lines, fmt.Sprintf(msg, args...))
+	l.mu.Unlock()
+}
+
+func (l *vfLockedPrinter) PrefixPrintf(prefix, msg string, args ...any) {
+	l.mu.Lock()
+	l.lines = append(l.lines, prefix+": "+fmt.Sprintf(msg, args...))
+	l.mu.Unlock()
+}
+
+// TestVerifC12RepeatConcurrent: repeated requests for one test case are
+// numbered without gaps or duplicates when they arrive at the same time.
+func TestVerifC12RepeatConcurrent(t *testing.T) {
+	rep := verifkit.Begin("C12", "repeat-concurrent", "one referenceServerChecks middleware (as in the real server); for each of N test-case names, k in 2..8 otherwise conformant requests released together by a barrier from k goroutines, several names in flight at once; oracle: per name exactly the feedback lines #2..#k, each once, and no other feedback; distinct = (name, k)")
+	defer rep.Write()
+	p := &vfLockedPrinter{}
+	h := referenceServerChecks(http.HandlerFunc(func(http.ResponseWriter, *http.Request) {}), p)
+	n := verifkit.Scale(400, 6000)
+	a := vfTup{Ver: 2, Proto: 1, Codec: 1, Comp: 1, Stream: true}
+	ks := make([]int, n)
+	var wg sync.WaitGroup
+	sem := make(chan struct{}, 8) // names in flight at once
+	for i := 0; i < n; i++ {
+		k := 2 + i%7
+		ks[i] = k
+		name := fmt.Sprintf("Repeat/concurrent/%d", i)
+		sem <- struct{}{}
+		wg.Add(1)
+		go func() {
+			defer wg.Done()
+			defer func() { <-sem }()
+			var ready, inner sync.WaitGroup
+			start := make(chan struct{})
+			for g := 0; g < k; g++ {
+				req := vfSynth(a, a, name)
+				ready.Add(1)
+				inner.Add(1)
+				go func() {
+					defer inner.Done()
+					ready.Done()
+					<-start
+					h(httptest.NewRecorder(), req)
+				}()
+			}
+			ready.Wait()
+			close(start)
+			inner.Wait()
+		}()
+	}
+	wg.Wait()
+	perName := map[string]map[string]int{}
+	for _, l := range p.lines {
+		parts := strings.SplitN(l, ": ", 2)
+		if len(parts) != 2 {
+			continue
+		}
+		if perName[parts[0]] == nil {
+			perName[parts[0]] = map[string]int{}
+		}
+		perName[parts[0]][strings.TrimSpace(parts[1])]++
+	}
+	for i := 0; i < n; i++ {
+		name := fmt.Sprintf("Repeat/concurrent/%d", i)
+		rep.Eval(1)
+		rep.DistinctKey(name, ks[i])
+		got := perName[name]
+		w := map[string]any{"name": name, "simultaneous_requests": ks[i], "feedback": got}
+		bad := ""
+		for j := 2; j <= ks[i]; j++ {
+			line := fmt.Sprintf("client sent another request (#%d) for the same test case", j)
+			if got[line] != 1 {
+				bad = fmt.Sprintf("%q printed %d times, want once", line, got[line])
+				break
+			}
+		}
+		if bad == "" && len(got) != ks[i]-1 {
+			bad = fmt.Sprintf("%d distinct feedback lines, want %d", len(got), ks[i]-1)
+		}
+		if bad != "" {
+			rep.Violation("checks/repeat-concurrent/miscounted", fmt.Sprintf("%d simultaneous requests for %s: %s", ks[i], name, bad), w)
+		} else {
+			rep.Count("names_counted_exactly", 1)
+		}
+	}
+	rep.Sample(map[string]any{"name": "Repeat/concurrent/5", "simultaneous_requests": 7, "expect": "#2 #3 #4 #5 #6 #7, each once"})
+	rep.RequireMin("names_counted_exactly", 1)
 }
